@@ -36,7 +36,7 @@ func New(parent string, name string) (*Sandbox, error) {
 
 func (s *Sandbox) W() string    { return filepath.Join(s.Root, "w") }
 func (s *Sandbox) Home() string { return filepath.Join(s.Root, "home") }
-func (s *Sandbox) Destroy()     { os.RemoveAll(s.Root) }
+func (s *Sandbox) Destroy()     { os.RemoveAll(s.Root); DropCache(s.Root + "/") }
 
 // CheckNoAncestorGoit: FindGoitRoot walks upwards; a .goit in an ancestor would be adopted.
 func CheckNoAncestorGoit(dir string) error {
@@ -194,7 +194,7 @@ func (s *Sandbox) Snapshot() *Snap {
 			case fi.IsDir():
 				sn.Dirs[rel] = true
 			case fi.Mode().IsRegular():
-				b, err := os.ReadFile(p)
+				b, err := readCached(p, fi)
 				if err != nil {
 					sn.Odd[rel] = "unreadable: " + err.Error()
 				} else {
@@ -207,6 +207,57 @@ func (s *Sandbox) Snapshot() *Snap {
 		})
 	}
 	return sn
+}
+
+// readCached avoids re-reading unchanged files at every snapshot. A file is unchanged iff inode,
+// size, mtime and ctime (which no user call can set) are all the same as when it was read.
+type fileKey struct {
+	path string
+	ino  uint64
+}
+type fileVal struct {
+	size         int64
+	mtime, ctime int64
+	data         []byte
+}
+
+var fileCache sync.Map
+
+func readCached(p string, fi os.FileInfo) ([]byte, error) {
+	st, ok := fi.Sys().(*syscall.Stat_t)
+	if !ok {
+		return os.ReadFile(p)
+	}
+	k := fileKey{p, st.Ino}
+	ct := st.Ctim.Sec*1e9 + st.Ctim.Nsec
+	mt := st.Mtim.Sec*1e9 + st.Mtim.Nsec
+	if v, ok := fileCache.Load(k); ok {
+		fv := v.(*fileVal)
+		if fv.size == st.Size && fv.ctime == ct && fv.mtime == mt {
+			return fv.data, nil
+		}
+	}
+	b, err := os.ReadFile(p)
+	if err != nil {
+		return nil, err
+	}
+	// only cache if the file was not modified while we read it
+	if fi2, err2 := os.Lstat(p); err2 == nil {
+		if st2, ok := fi2.Sys().(*syscall.Stat_t); ok && st2.Ino == st.Ino && st2.Size == st.Size && st2.Ctim == st.Ctim && int64(len(b)) == st.Size {
+			fileCache.Store(k, &fileVal{size: st.Size, mtime: mt, ctime: ct, data: b})
+		}
+	}
+	return b, nil
+}
+
+// DropCache forgets cached file contents beneath a directory (called when a sandbox is destroyed).
+func DropCache(prefix string) {
+	fileCache.Range(func(k, _ any) bool {
+		if strings.HasPrefix(k.(fileKey).path, prefix) {
+			fileCache.Delete(k)
+		}
+		return true
+	})
 }
 
 // Restore makes the sandbox content equal to the snapshot (used for state-space exploration,
